@@ -76,6 +76,12 @@ func runInput(c *corr.Ctx, specs []*cu.Spec, raw []byte, name string) bool {
 				runFault(c, s, &in, name)
 				return true
 			}
+		case "h26x-foreign":
+			var in ForeignInput
+			if json.Unmarshal(raw, &in) == nil {
+				runForeign(c, s, &in, name)
+				return true
+			}
 		case "h26x-pts":
 			var in PtsInput
 			if json.Unmarshal(raw, &in) == nil {
@@ -620,7 +626,7 @@ func ptsCases(c *corr.Ctx, s *cu.Spec) {
 // Run is the domain entry point.
 func Run(c *corr.Ctx) {
 	ctx = c
-	c.Rule("per codec (h264, h265): round trips of 1..3 consecutive valid access units (NALU sizes concentrated within ±8 of the single/fragmented, aggregation-fit and k-fragment thresholds of the drawn payload limit; limits from the smallest workable value, mostly below 64, sometimes 100..400 and 1450; NALU counts up to the cap; initial sequence numbers incl. wrap inside the run), exhaustive single-size / size-pair sweeps at small limits, long runs (one Encode call of >= 257, thorough also >= 65537, fragments followed by two more calls), random fault streams + enumerated single (thorough: double) drop/dup/swap faults on 3-frame streams of all shape combinations, frames outside ValidFrame through the real encoder/decoder (correspondence only), the ValidFrame / ValidCfg predicates themselves (Go rendering vs Lean), hostile streams (random, grammar-aware FU / aggregation / Annex-B payloads, mutated, shuffled, endless fragments, NALU-count and size caps incl. exactly MaxAccessUnitSize), PTSEqualsDTS on hostile and valid payloads with all prefixes; non-trivial = multi-packet or multi-frame or faulted; distinct = distinct op-line sequences")
+	c.Rule("per codec (h264, h265): round trips of 1..3 consecutive valid access units (NALU sizes concentrated within ±8 of the single/fragmented, aggregation-fit and k-fragment thresholds of the drawn payload limit; limits from the smallest workable value, mostly below 64, sometimes 100..400 and 1450; NALU counts up to the cap; initial sequence numbers incl. wrap inside the run), exhaustive single-size / size-pair sweeps at small limits, long runs (one Encode call of >= 257, thorough also >= 65537, fragments followed by two more calls), random fault streams + enumerated single (thorough: double) drop/dup/swap faults on 3-frame streams of all shape combinations, 'foreign packetiser' streams (RFC-valid packetisations the library's encoder never emits: FU fragments of any size incl. header-only first / empty middle / empty last, FU for small NALUs, STAP-A / AP with one NALU, single / aggregated / fragmented mixed in one access unit) in order and with drop/dup/swap faults, frames outside ValidFrame through the real encoder/decoder (correspondence only), the ValidFrame / ValidCfg predicates themselves (Go rendering vs Lean), hostile streams (random, grammar-aware FU / aggregation / Annex-B payloads, mutated, shuffled, endless fragments, NALU-count and size caps incl. exactly MaxAccessUnitSize), PTSEqualsDTS on hostile and valid payloads with all prefixes; non-trivial = multi-packet or multi-frame or faulted; distinct = distinct op-line sequences")
 	specs := []*cu.Spec{H264, H265}
 	if c.Replay != nil {
 		runInput(c, specs, c.Replay, "replay")
@@ -640,6 +646,9 @@ func Run(c *corr.Ctx) {
 		}
 		if c.Want("C07") {
 			faultSweep(c, s)
+		}
+		if c.Want("C03") || c.Want("C07") {
+			foreignCases(c, s)
 		}
 		if c.Want("C07") || c.Want("C08") {
 			stateCases(c, s)
